@@ -200,6 +200,21 @@ func TestFiles(t *testing.T) {
 	})
 }
 
+// TestBigBodies: the 24-bit size limit and the 32-bit PreviousTagSize around 2^24.
+func TestBigBodies(t *testing.T) {
+	rec := ev.New(prop, "big-bodies", "deterministic: one tag of 2^24-12, 2^24-11, 2^24-2 and 2^24-1 body bytes (PreviousTagSize crosses 2^24), followed by a small tag, whole and segmented reads; all non-trivial")
+	rec.Exhaustive()
+	for i, n := range []int{1<<24 - 12, 1<<24 - 11, 1<<24 - 2, 1<<24 - 1} {
+		c := Case{HasVideo: true, HasAudio: i%2 == 0, Tags: []T{{Type: 9, Ts: 1<<24 + uint32(i), Len: n, Fill: uint64(i + 1)}, {Type: 8, Ts: 5, Len: 3, Fill: 9}}, SegKind: 2 * (i % 2), Seg: []int{65536, 7}}
+		err := ev.Try(func() error { return runCase(c) })
+		rec.Case(true, ev.Hash(c), nil, func() any { return c })
+		if err != nil {
+			p := ev.Fail(prop, "files", c, err)
+			t.Fatalf("%v (replay %s)", err, p)
+		}
+	}
+}
+
 func replayers() map[string]ev.Replayer {
 	return map[string]ev.Replayer{"files": func(raw json.RawMessage) error {
 		var c Case
